@@ -134,6 +134,27 @@ pub enum Term {
     Combined(Vec<Term>),
 }
 
+/// which components of the search instance are built the way the application builds them: through
+/// the builder / service types of `routee_compass::app::compass::config` from a JSON configuration and
+/// files written for the case (speed table, edge headings, road classes, turn restrictions, vehicle
+/// restrictions), then `service.build(&query)`.  Everything off = constructed in code.
+#[derive(Clone, Debug, Default, PartialEq, Eq)]
+pub struct AppBuild {
+    pub trav: bool,
+    pub access: bool,
+    pub frontier: bool,
+    /// leave `distance_unit` / `time_unit` out of the traversal configuration when they are the defaults
+    pub omit_default_units: bool,
+    /// write the row files gzip-compressed
+    pub gzip: bool,
+}
+
+impl AppBuild {
+    pub fn any(&self) -> bool {
+        self.trav || self.access || self.frontier
+    }
+}
+
 #[derive(Clone, Debug)]
 pub struct SCase {
     pub coords: Vec<(f32, f32)>,
@@ -166,6 +187,7 @@ pub struct SCase {
     /// (with `svc`) the weights carry a name the state model does not have: dropped silently when
     /// ignore_unknown_weights is set, otherwise the service must refuse to build
     pub svc_unknown_weight: bool,
+    pub app: AppBuild,
 }
 
 pub struct Built {
@@ -265,8 +287,148 @@ pub fn turn_index_by_name(name: &str) -> Option<usize> {
         .position(|n| *n == name)
 }
 
-fn class_name(c: u8) -> String {
+pub fn class_name(c: u8) -> String {
     format!("class{}", c)
+}
+
+
+// ---------------------------------------------------------------------------------------------
+// files written for one case (removed again before `build` returns)
+
+static SCRATCH_SEQ: std::sync::atomic::AtomicUsize = std::sync::atomic::AtomicUsize::new(0);
+
+/// a fresh directory under the harness's work directory; removed on drop
+pub struct Scratch {
+    pub dir: std::path::PathBuf,
+}
+
+impl Scratch {
+    pub fn new() -> Scratch {
+        let k = SCRATCH_SEQ.fetch_add(1, std::sync::atomic::Ordering::Relaxed);
+        let dir = std::env::current_dir()
+            .unwrap_or_else(|_| std::path::PathBuf::from("."))
+            .join("work")
+            .join(format!("search_files_{}", std::process::id()))
+            .join(k.to_string());
+        std::fs::create_dir_all(&dir).expect("scratch dir");
+        Scratch { dir }
+    }
+    /// write `text` (gzip-compressed when asked) and return the path as a string
+    pub fn file(&self, name: &str, text: &str, gzip: bool) -> String {
+        let path = self.dir.join(name);
+        if gzip {
+            use std::io::Write;
+            let f = std::fs::File::create(&path).expect("scratch file");
+            let mut enc = flate2::write::GzEncoder::new(f, flate2::Compression::fast());
+            enc.write_all(text.as_bytes()).expect("scratch write");
+            enc.finish().expect("scratch finish");
+        } else {
+            std::fs::write(&path, text).expect("scratch write");
+        }
+        path.to_string_lossy().into_owned()
+    }
+    pub fn path(&self, name: &str) -> String {
+        self.dir.join(name).to_string_lossy().into_owned()
+    }
+}
+
+impl Drop for Scratch {
+    fn drop(&mut self) {
+        let _ = std::fs::remove_dir_all(&self.dir);
+        if let Some(parent) = self.dir.parent() {
+            let _ = std::fs::remove_dir(parent); // only succeeds once it is empty
+        }
+    }
+}
+
+pub const TURN_NAMES: [&str; 8] = ["no_turn", "slight_right", "slight_left", "right", "left", "sharp_right", "sharp_left", "u_turn"];
+
+/// text of a speed table file: one speed per line (Rust prints the shortest text that parses back
+/// to the same double)
+pub fn speed_file_text(table: &[f64]) -> String {
+    table.iter().map(|s| format!("{}\n", s)).collect()
+}
+
+pub fn headings_file_text(headings: &[(i16, Option<i16>)]) -> String {
+    let mut t = String::from("arrival_heading,departure_heading\n");
+    for (a, d) in headings {
+        match d {
+            Some(d) => t.push_str(&format!("{},{}\n", a, d)),
+            None => t.push_str(&format!("{},\n", a)),
+        }
+    }
+    t
+}
+
+pub fn turn_delay_model_json(tu: &TimeUnit, delays: &[Option<f64>; 8]) -> serde_json::Value {
+    let mut table = serde_json::Map::new();
+    for (i, d) in delays.iter().enumerate() {
+        if let Some(d) = d {
+            table.insert(TURN_NAMES[i].to_string(), serde_json::json!(d));
+        }
+    }
+    serde_json::json!({"type": "tabular_discrete", "table": table, "time_unit": tu.to_string()})
+}
+
+pub fn restriction_name(r: &Restr) -> &'static str {
+    match r {
+        Restr::Weight { per_axle: false, .. } => "maximum_total_weight",
+        Restr::Weight { per_axle: true, .. } => "maximum_weight_per_axle",
+        Restr::Length { which: 2, .. } => "maximum_length",
+        Restr::Length { which: 3, .. } => "maximum_width",
+        Restr::Length { which: 4, .. } => "maximum_height",
+        Restr::Length { .. } => "maximum_trailer_length",
+    }
+}
+
+pub fn vehicle_restriction_file_text(rows: &[(usize, Vec<Restr>)]) -> String {
+    let mut t = String::from("edge_id,restriction_name,restriction_value,restriction_unit\n");
+    for (e, rs) in rows {
+        for r in rs {
+            let (v, u) = match r {
+                Restr::Weight { limit, unit, .. } => (*limit, unit.to_string()),
+                Restr::Length { limit, unit, .. } => (*limit, unit.to_string()),
+            };
+            t.push_str(&format!("{},{},{},{}\n", e, restriction_name(r), v, u));
+        }
+    }
+    t
+}
+
+pub fn vehicle_parameters_json(params: &VParams) -> serde_json::Value {
+    serde_json::json!({
+        "height": [params.height.0, params.height.1.to_string()],
+        "width": [params.width.0, params.width.1.to_string()],
+        "total_length": [params.total_length.0, params.total_length.1.to_string()],
+        "trailer_length": [params.trailer_length.0, params.trailer_length.1.to_string()],
+        "total_weight": [params.total_weight.0, params.total_weight.1.to_string()],
+        "number_of_axles": params.axles,
+    })
+}
+
+/// the frontier-model builders the application registers (compass_app_builder.rs), for `combined`
+pub fn frontier_builders() -> HashMap<String, std::rc::Rc<dyn routee_compass_core::model::frontier::frontier_model_builder::FrontierModelBuilder>> {
+    use routee_compass::app::compass::config::frontier_model::{
+        no_restriction_builder::NoRestrictionBuilder, road_class::road_class_builder::RoadClassBuilder,
+        turn_restrictions::turn_restriction_builder::TurnRestrictionBuilder,
+        vehicle_restrictions::vehicle_restriction_builder::VehicleRestrictionBuilder,
+    };
+    use routee_compass_core::model::frontier::frontier_model_builder::FrontierModelBuilder;
+    use std::rc::Rc;
+    let mut m: HashMap<String, Rc<dyn FrontierModelBuilder>> = HashMap::new();
+    m.insert("no_restriction".into(), Rc::new(NoRestrictionBuilder {}));
+    m.insert("road_class".into(), Rc::new(RoadClassBuilder {}));
+    m.insert("turn_restriction".into(), Rc::new(TurnRestrictionBuilder {}));
+    m.insert("vehicle_restriction".into(), Rc::new(VehicleRestrictionBuilder {}));
+    m
+}
+
+pub fn road_class_mapping_json() -> serde_json::Value {
+    let mut mapping = serde_json::Map::new();
+    for cl in 0u8..8 {
+        mapping.insert(class_name(cl), serde_json::json!(cl));
+    }
+    serde_json::Value::Object(mapping)
 }
 
 pub fn build_graph(c: &SCase) -> Graph {
@@ -308,7 +470,49 @@ pub fn build(c: &SCase) -> Result<Built, String> {
         .collect();
     let state_model = Arc::new(StateModel::empty().extend(feats).map_err(|e| format!("state: {}", e))?);
     let mut max_speed = 0.0;
+    let scratch = if c.app.any() { Some(Scratch::new()) } else { None };
+    // the query starts empty; the cost-model overrides, road classes, vehicle parameters and the
+    // weight factor are added below.  The traversal / access services of the application ignore it.
     let traversal_model: Arc<dyn TraversalModel> = match &c.trav {
+        Trav::Dist(du) if c.app.trav => {
+            use routee_compass::app::compass::config::traversal_model::distance_traversal_builder::DistanceTraversalBuilder;
+            use routee_compass_core::model::traversal::traversal_model_builder::TraversalModelBuilder;
+            let mut cfg = serde_json::Map::new();
+            cfg.insert("type".into(), serde_json::json!("distance"));
+            if !(c.app.omit_default_units && *du == BASE_DISTANCE_UNIT) {
+                cfg.insert("distance_unit".into(), serde_json::json!(du.to_string()));
+            }
+            let service = DistanceTraversalBuilder {}.build(&serde_json::Value::Object(cfg)).map_err(|e| format!("traversal: {}", e))?;
+            service.build(&serde_json::json!({})).map_err(|e| format!("traversal: {}", e))?
+        }
+        Trav::Speed { su, du, tu, table } if c.app.trav => {
+            use routee_compass::app::compass::config::traversal_model::speed_lookup_builder::SpeedLookupBuilder;
+            use routee_compass_core::model::traversal::traversal_model_builder::TraversalModelBuilder;
+            let sc = scratch.as_ref().unwrap();
+            let path = sc.file("speeds.txt", &speed_file_text(table), c.app.gzip);
+            let mut cfg = serde_json::Map::new();
+            cfg.insert("type".into(), serde_json::json!("speed_table"));
+            cfg.insert("speed_table_input_file".into(), serde_json::json!(path));
+            cfg.insert("speed_unit".into(), serde_json::json!(su.to_string()));
+            if !(c.app.omit_default_units && *du == BASE_DISTANCE_UNIT) {
+                cfg.insert("distance_unit".into(), serde_json::json!(du.to_string()));
+            }
+            if !(c.app.omit_default_units && *tu == BASE_TIME_UNIT) {
+                cfg.insert("time_unit".into(), serde_json::json!(tu.to_string()));
+            }
+            // the engine the builder constructs is not reachable through the service trait object:
+            // the same constructor call gives the maximum speed the model is told about
+            let engine = SpeedTraversalEngine::new(
+                &path,
+                *su,
+                if c.app.omit_default_units && *du == BASE_DISTANCE_UNIT { None } else { Some(*du) },
+                if c.app.omit_default_units && *tu == BASE_TIME_UNIT { None } else { Some(*tu) },
+            )
+            .map_err(|e| format!("speed: {}", e))?;
+            max_speed = engine.max_speed.as_f64();
+            let service = SpeedLookupBuilder {}.build(&serde_json::Value::Object(cfg)).map_err(|e| format!("speed: {}", e))?;
+            service.build(&serde_json::json!({})).map_err(|e| format!("traversal: {}", e))?
+        }
         Trav::Dist(du) => Arc::new(DistanceTraversalModel::new(*du)),
         Trav::Speed { su, du, tu, table } => {
             let speed_table: Box<[Speed]> = table.iter().map(|s| Speed::new(*s)).collect();
@@ -326,6 +530,19 @@ pub fn build(c: &SCase) -> Result<Built, String> {
     };
     let access_model: Arc<dyn AccessModel> = match &c.access {
         Acc::None => Arc::new(NoAccessModel {}),
+        Acc::Turn { tu, headings, delays } if c.app.access => {
+            use routee_compass::app::compass::config::access_model::turn_delay_access_model_builder::TurnDelayAccessModelBuilder;
+            use routee_compass_core::model::access::access_model_builder::AccessModelBuilder;
+            let sc = scratch.as_ref().unwrap();
+            let path = sc.file("headings.csv", &headings_file_text(headings), c.app.gzip);
+            let cfg = serde_json::json!({
+                "type": "turn_delay",
+                "edge_heading_input_file": path,
+                "turn_delay_model": turn_delay_model_json(tu, delays),
+            });
+            let service = TurnDelayAccessModelBuilder {}.build(&cfg).map_err(|e| format!("access: {}", e))?;
+            service.build(&serde_json::json!({})).map_err(|e| format!("access: {}", e))?
+        }
         Acc::Turn { tu, headings, delays } => {
             let edge_headings: Vec<EdgeHeading> = headings
                 .iter()
@@ -417,7 +634,67 @@ pub fn build(c: &SCase) -> Result<Built, String> {
     let mut query = serde_json::Value::Object(svc_query);
     let mut inner: Vec<Arc<dyn FrontierModel>> = vec![];
     let mut cut: Option<HashSet<EdgeId>> = None;
-    for f in &c.frontier {
+    let mut app_frontier: Option<Arc<dyn FrontierModel>> = None;
+    if c.app.frontier {
+        // one configuration object per model, files written for the case; a single model goes through
+        // its own builder, any other number through the `combined` builder with the application's
+        // registry; query fields as a user writes them
+        use routee_compass::app::compass::config::frontier_model::combined::combined_builder::CombinedBuilder;
+        use routee_compass_core::model::frontier::frontier_model_builder::FrontierModelBuilder;
+        let sc = scratch.as_ref().unwrap();
+        let mut cfgs: Vec<serde_json::Value> = vec![];
+        for (k, f) in c.frontier.iter().enumerate() {
+            match f {
+                Fr::RoadClass { allowed, by_name, table } => {
+                    let text: String = table.iter().map(|x| format!("{}\n", x)).collect();
+                    let path = sc.file(&format!("road_class_{}.txt", k), &text, c.app.gzip);
+                    let mut cfg = serde_json::Map::new();
+                    cfg.insert("type".into(), serde_json::json!("road_class"));
+                    cfg.insert("road_class_input_file".into(), serde_json::json!(path));
+                    if *by_name {
+                        cfg.insert("road_class_parser".into(), serde_json::json!({ "mapping": road_class_mapping_json() }));
+                    }
+                    if let Some(a) = allowed {
+                        query["road_classes"] = if *by_name {
+                            serde_json::json!(a.iter().map(|x| class_name(*x)).collect::<Vec<_>>())
+                        } else {
+                            serde_json::json!(a)
+                        };
+                    }
+                    cfgs.push(serde_json::Value::Object(cfg));
+                }
+                Fr::TurnRestriction(pairs) => {
+                    let mut text = String::from("prev_edge_id,next_edge_id\n");
+                    for (p, n) in pairs {
+                        text.push_str(&format!("{},{}\n", p, n));
+                    }
+                    let path = sc.file(&format!("turn_restriction_{}.csv", k), &text, c.app.gzip);
+                    cfgs.push(serde_json::json!({"type": "turn_restriction", "turn_restriction_input_file": path}));
+                }
+                Fr::Vehicle { rows, params } => {
+                    let path = sc.file(&format!("vehicle_restriction_{}.csv", k), &vehicle_restriction_file_text(rows), c.app.gzip);
+                    query["vehicle_parameters"] = vehicle_parameters_json(params);
+                    cfgs.push(serde_json::json!({"type": "vehicle_restriction", "vehicle_restriction_input_file": path}));
+                }
+                Fr::EdgeCut(es) => {
+                    cut = Some(es.iter().map(|e| EdgeId(*e)).collect());
+                }
+            }
+        }
+        let builders = frontier_builders();
+        let service = if cfgs.len() == 1 {
+            let ty = cfgs[0]["type"].as_str().unwrap_or("").to_string();
+            builders[&ty].build(&cfgs[0]).map_err(|e| format!("frontier: {}", e))?
+        } else if cfgs.is_empty() && c.app.gzip {
+            builders["no_restriction"].build(&serde_json::json!({"type": "no_restriction"})).map_err(|e| format!("frontier: {}", e))?
+        } else {
+            CombinedBuilder { builders }
+                .build(&serde_json::json!({"type": "combined", "models": cfgs}))
+                .map_err(|e| format!("frontier: {}", e))?
+        };
+        app_frontier = Some(service.build(&query, state_model.clone()).map_err(|e| format!("frontier: {}", e))?);
+    }
+    for f in c.frontier.iter().filter(|_| !c.app.frontier) {
         match f {
             Fr::RoadClass { allowed, by_name, table } => {
                 let mut mapping = serde_json::Map::new();
@@ -481,14 +758,7 @@ pub fn build(c: &SCase) -> Result<Built, String> {
                         )
                     })
                     .collect();
-                query["vehicle_parameters"] = serde_json::json!({
-                    "height": [params.height.0, params.height.1.to_string()],
-                    "width": [params.width.0, params.width.1.to_string()],
-                    "total_length": [params.total_length.0, params.total_length.1.to_string()],
-                    "trailer_length": [params.trailer_length.0, params.trailer_length.1.to_string()],
-                    "total_weight": [params.total_weight.0, params.total_weight.1.to_string()],
-                    "number_of_axles": params.axles,
-                });
+                query["vehicle_parameters"] = vehicle_parameters_json(params);
                 let svc = VehicleRestrictionFrontierService { vehicle_restriction_lookup: Arc::new(lookup) };
                 inner.push(svc.build(&query, state_model.clone()).map_err(|e| format!("frontier: {}", e))?);
             }
@@ -497,7 +767,9 @@ pub fn build(c: &SCase) -> Result<Built, String> {
             }
         }
     }
-    let mut frontier_model: Arc<dyn FrontierModel> = if inner.len() == 1 {
+    let mut frontier_model: Arc<dyn FrontierModel> = if let Some(m) = app_frontier {
+        m
+    } else if inner.len() == 1 {
         inner.pop().unwrap()
     } else {
         Arc::new(CombinedFrontierModel { inner_models: inner })
@@ -526,6 +798,7 @@ pub fn build(c: &SCase) -> Result<Built, String> {
         None => SearchAlgorithm::Dijkstra,
         Some(w) => SearchAlgorithm::AStarAlgorithm { weight_factor: w.map(Cost::new) },
     };
+    drop(scratch);
     Ok(Built { si, graph, alg, query, cost_weights, cost_vrates, cost_nrates, max_speed })
 }
 
@@ -1306,6 +1579,7 @@ pub fn gen_case_on(rng: &mut Rng, opts: &GenOpts, coords: Vec<(f32, f32)>, edges
         svc: if rng.chance(1, 2) { Some((rng.chance(1, 2), rng.chance(1, 2), rng.chance(1, 2), rng.chance(1, 3))) } else { None },
         term_via_builder: false,
         svc_unknown_weight: rng.chance(1, 4),
+        app: AppBuild::default(),
     }
 }
 
